@@ -433,6 +433,7 @@ def gen_exec(rng):
     add_bystanders(b, rng, rng.choice([1, 2, 3, 4]), h)
     h.append(["sleep", 0.05])
     calls = []
+    cross = rng.choice([("asyncio", "trio"), ("trio", "asyncio")])
     for _ in range(rng.choice([1, 3, 6, 10, 20])):
         fl = rng.choice(FLS)
         r = rng.random()
@@ -449,7 +450,12 @@ def gen_exec(rng):
             if caller == "thread":
                 cfl = "threading"
             else:
+                # a blocking execute from a coroutine payload stalls its whole loop; two loops executing
+                # into each other at the same time deadlock by construction (API misuse, outside C10):
+                # per scenario only ONE direction of coroutine-to-coroutine calls is generated
                 cfl = rng.choice([f for f in FLS if f != fl])
+                if cfl != "threading" and fl != "threading" and (cfl, fl) != cross:
+                    cfl = "threading"
             parent = b.payload(cfl, [["execute", 0, pid]] + rnd_bystander_script(rng, cfl), rnd_cleanup(rng, cfl))
             h.append(["adopt", 0, parent])
         calls.append([pid, fl, caller])
